@@ -1,0 +1,5 @@
+//go:build !verif
+
+package spine
+
+func verifYieldLT(string) {}
